@@ -116,6 +116,28 @@ class SimEnv(object):
         self.leaked_threads = leaked
         return False
 
+    # ------------------------------------------------------------------ stream ids as input
+    rotate_stream_ids = True
+
+    def stream_id_rotation(self, conn):
+        """How many sequential requests a freshly connected connection is taken to have served already (deterministic in the
+        connection's number, so that a history is still a function of its seed): 0 for most, otherwise the state in which the
+        id 0 or 1 (the ones the handshake used and returned) is handed out next, or a state half way round."""
+        if not self.rotate_stream_ids or conn.sim_id is None:
+            return 0
+        ids = list(conn.request_ids)
+        if len(ids) < 4:
+            return 0
+        # the number of scheduling choices made so far varies from history to history and is a function of the history
+        salt = len(getattr(self.world.chooser, 'log', ()))
+        pick = (conn.sim_id * 3 + salt) % 5
+        if pick in (1, 2) and 0 in ids:
+            # id 0 is the 1st .. 4th id handed out from now on (a retry or re-prepare is the 2nd or 3rd send on its connection)
+            return max(0, ids.index(0) - (salt // 5) % 4)
+        if pick == 3:
+            return ids.index(1) if (conn.sim_id % 2 and 1 in ids) else len(ids) // 2
+        return 0
+
     # ------------------------------------------------------------------ connection class
     def _make_conn_class(self):
         from cassandra.connection import Connection, ConnectionShutdown
@@ -124,6 +146,7 @@ class SimEnv(object):
 
         class SimConnection(Connection):
             sim_id = None
+            _sim_rotated = False
 
             def __init__(self, *args, **kwargs):
                 Connection.__init__(self, *args, **kwargs)
@@ -138,6 +161,20 @@ class SimEnv(object):
                     raise ConnectionRefusedError(111, "Tried connecting to [(%r, 9042)]. Last error: Connection refused (simulated)" % (str(self.endpoint),))
                 self.peer = node.accept(self)
                 self._send_options_message()
+
+            def get_request_id(self):
+                # Stream ids are an input like any other: a connection that has served k sequential requests hands out
+                # ids from a free list rotated by k.  Once, when the handshake is over, the list of some connections is
+                # rotated to such a state - most often the one where the boundary id 0 (falsy!) comes next - instead of
+                # leaving every history on the fresh-connection ids 2, 3, 4 ...  (rotate(-k) is exactly what k requests that
+                # came and went leave behind; nothing else about the connection changes.)
+                if not self._sim_rotated and self.connected_event.is_set():
+                    self._sim_rotated = True
+                    k = env.stream_id_rotation(self)
+                    if k:
+                        self.request_ids.rotate(-k)
+                        net.events.append(('ids_rotated', self.sim_id, k))
+                return Connection.get_request_id(self)
 
             def push(self, data):
                 if self.is_closed:
